@@ -283,3 +283,31 @@ def zoned_clock_ticking(P):
         nxt = clock.get_current_instant()._time_since_epoch
         return ok and nxt._floor_days * NPD + nxt._nanosecond_of_floor_day == t0 + step
     return h
+
+
+@lemma({"y": int, "m": int, "d": int, "hh": int, "mi": int, "ss": int}, params=list(range(1, 13)), budget=200, per_path=40,
+       bounds="FakeClock.from_utc(y, m, d, hh, mi, ss) for every valid date of the given month in years 1..9999 and every time of day: the clock "
+              "reads the instant that many days (ISO day number: C01/C02) and exactly hh:mm:ss into the day after the Unix epoch, twice in a row "
+              "(auto-advance starts at zero)")
+def fakeclock_from_utc(P):
+    from props import calsetup as cs
+    from props import ymdrecord
+    cal, calc, _a, _b = cs.prepare("ISO")
+    ymdrecord.install()
+    month = P
+
+    def h(y, m, d, hh, mi, ss):
+        assume(1 <= y <= 9999)
+        assume(m == month)
+        assume(1 <= d <= calc._get_days_in_month(y, month))
+        assume(0 <= hh <= 23)
+        assume(0 <= mi <= 59)
+        assume(0 <= ss <= 59)
+        clock = FakeClock.from_utc(y, month, d, hh, mi, ss)
+        days = calc._get_days_since_epoch(ymdrecord.YMD(y, month, d))
+        want = days * NPD + ((hh * 60 + mi) * 60 + ss) * 10 ** 9
+        a = clock.get_current_instant()._time_since_epoch
+        b = clock.get_current_instant()._time_since_epoch
+        return (a._floor_days * NPD + a._nanosecond_of_floor_day == want and b._floor_days * NPD + b._nanosecond_of_floor_day == want
+                and clock.auto_advance.to_nanoseconds() == 0)
+    return h
